@@ -73,4 +73,13 @@ theorem roundCbrt_unique (q : Rat) (hq : 0 ≤ q) (k : Nat)
     have := b1 hk
     linarith
 
+/-- perfect cubes are their own rounded cube roots -/
+theorem roundCbrt_cube' (k : Nat) : roundCbrt (cube (k : Rat)) = k := by
+  have hk : (0 : Rat) ≤ (k : Rat) := Nat.cast_nonneg k
+  apply roundCbrt_unique _ (by unfold cube; positivity) k
+  · intro h1
+    have : (1 : Rat) ≤ (k : Rat) := by exact_mod_cast h1
+    exact cube_mono _ _ (by linarith) (by linarith)
+  · exact cube_strict _ _ hk (by linarith)
+
 end DFV.C18
